@@ -71,7 +71,7 @@ def run(ctx, prop="C08"):
             nrel = 1 if kind == "exclude-reload" else 0
             relines = [pipeline.make_lines(rng, rng.choice([n, n, 200]), sparse=True) for _ in range(nrel)]
             rescheds = [pipeline.make_schedule(rng, rl, 0.2) for rl in relines]
-            if nrel and rng.random() < 0.6:     # a reload of exactly the same size arriving in one burst
+            if nrel and (sid % 8 == 4 or rng.random() < 0.5):     # a reload of exactly the same size arriving in one burst
                 relines = [pipeline.make_lines(rng, n, sparse=True)]
                 rescheds = [[{"sleep": 0, "lines": relines[0]}]]
             steps = pipeline.scenario_steps(rng, kind, nrel)
